@@ -443,6 +443,13 @@ func shapeOf(cs []entry) string {
 	}
 	s := ""
 	for _, k := range []string{"add", "set", "remove", "remove-unknown"} {
+		if cnt[k] > 3 { // wide change sets: one class for "many"
+			if s != "" {
+				s += "+"
+			}
+			s += k + "*many"
+			continue
+		}
 		for i := 0; i < cnt[k]; i++ {
 			if s != "" {
 				s += "+"
